@@ -7,6 +7,7 @@ import Bip39V.Model.Stringer
 import Bip39V.Model.Tool
 import Bip39V.Spec.Bip39
 import Bip39V.Crypto.Sha
+import Bip39V.Crypto.Sha256Spec
 /-! `bip39model`: one operation per input line, one answer per output line — the executable
 definitions of the Lean model (M) and of the specification (S) behind a line protocol. -/
 open Bip39V
@@ -29,7 +30,7 @@ def unhex (s : String) : Option (List UInt8) := if s == "_" then some [] else un
 def strOfHex (s : String) : Option Str := (unhex s).map decodeItems
 def hexOfStr (s : Str) : String := hexOf (utf8 s)
 
-def D : Bytes → Bytes := Crypto.sha256L
+def D : Bytes → Bytes := Crypto.S256.sha256
 def PB : Bytes → Bytes → Nat → Nat → Bytes := Crypto.pbkdf2L
 def X : Str → Str := Unicode.nfkd
 
@@ -154,7 +155,7 @@ def answer (line : String) : String :=
     | none => "bad-op"
   | ["sha256", h] =>
     match unhex h with
-    | some b => s!"M ok {hexOf (D b)}\tS -"
+    | some b => s!"M ok {hexOf (D b)}\tS ok {hexOf (Crypto.sha256L b)}"
     | none => "bad-op"
   | ["pbkdf2", hp, hs, it, n] =>
     match unhex hp, unhex hs, it.toNat?, n.toNat? with
